@@ -10,10 +10,10 @@ PROP_INVS = {
             "C06t_OwnResponse"],
     "C06": ["C06t_OwnResponse", "C06t_NoReuseAfterFailure", "C06t_ReleaseOnlyAfterComplete", "C17t_NoPanicNoHang"],
     "C17": ["C17t_CutIsError", "C17t_NextCallSucceeds", "C17t_NoPanicNoHang", "C06t_NoReuseAfterFailure", "C06t_OwnResponse"],
-    "C09": ["C09t_CancelPrompt", "C09t_ContextError", "C06t_ReleaseOnlyAfterComplete", "C06t_NoReuseAfterFailure", "C06t_OwnResponse"],
+    "C09": ["C09t_CancelPrompt", "C09t_ContextError", "C09t_ClosedPoolConnsClose", "C17t_NextCallSucceeds", "C06t_ReleaseOnlyAfterComplete", "C06t_NoReuseAfterFailure", "C06t_OwnResponse"],
 }
 MC_INVS = ["TypeOK", "C12_Routing", "C12_Address", "C12_Version", "C12_FollowLeader", "C12_CacheFilter", "C06t_OwnResponse",
-           "C06t_ReleaseOnlyAfterComplete", "C06t_NoReuseAfterFailure", "C09t_CancelPrompt"]
+           "C06t_ReleaseOnlyAfterComplete", "C06t_NoReuseAfterFailure", "C09t_CancelPrompt", "C09t_ClosedPoolConnsClose"]
 MC_PROPS = ["C12_GrabIsLatest", "C06t_DeadStaysDead"]
 # seeded defects the model must reject (vacuity guards): defect -> (config it is run with, what must fail)
 GUARDS = {
@@ -23,6 +23,7 @@ GUARDS = {
     "staleCache": ("route", {"C12_GrabIsLatest", "C12_FollowLeader"}),
     "filterAll": ("route", {"C12_CacheFilter"}),
     "keepGroupOnReaddress": ("addr", {"C12_Address"}),
+    "leakOnClosedGroup": ("addr", {"C09t_ClosedPoolConnsClose"}),
     "stopOnRefreshTimeout": ("live", {"temporal", "C12_RefreshWithinTTL"}),
     "releaseOnFail": ("fault", {"C06t_NoReuseAfterFailure", "C06t_ReleaseOnlyAfterComplete"}),
     "releaseOnCancel": ("fault", {"C06t_ReleaseOnlyAfterComplete", "C06t_OwnResponse"}),
@@ -355,7 +356,7 @@ def bad_of(out, inv):
 FIELD_OF = {"C12_Routing": "route", "C12_Version": "version", "C12_FollowLeader": "follow", "C12_FollowLeaderRealTime": "realtime",
             "C12_RefreshWithinTTL": "refresh", "C12_CacheFilter": "filter", "C06t_OwnResponse": "own", "C06t_NoReuseAfterFailure": "reuse",
             "C06t_ReleaseOnlyAfterComplete": "pending", "C17t_CutIsError": "cut", "C17t_NextCallSucceeds": "nexterr",
-            "C17t_NoPanicNoHang": "hang", "C09t_CancelPrompt": "late", "C09t_ContextError": "ctxerr"}
+            "C17t_NoPanicNoHang": "hang", "C09t_CancelPrompt": "late", "C09t_ContextError": "ctxerr", "C09t_ClosedPoolConnsClose": "leak"}
 
 
 def detail_of(out, inv):
@@ -845,6 +846,53 @@ def c09_scripts(seed, tier):
                 st.append({"op": dict(mkop(ops, kind, rng, **kw), mustSucceed=True)})
                 sc.update({"id": "c09-%s-leg%d-%s%s" % (kind, leg, how, "" if warm else "-cold"), "kind": "c09", "steps": st})
                 out.append(sc)
+    # The pool, or the connection group of a broker, is closed while exchanges are in flight on its connections; the
+    # held answers are released afterwards and the exchanges complete successfully: every connection opened before
+    # must be closed once its exchange is over (census after things settled).
+    def base(ttl):
+        return cluster(brokers=(1, 2), boot=(1,), leaders1=(2, 2), leaders2=(2, 2), coord=2, txn=2, ctrlr=2, ttl=ttl)
+    sets = [["produce"], ["fetch", "initproducerid"], ["produce", "offsetfetch", "listoffsets1"]]
+    for si, ks in enumerate(sets if tier == "thorough" else sets[:3]):
+        # (a) Transport.CloseIdleConnections while abandoned exchanges are still pending
+        ops = Ops()
+        sc = base(2000)
+        kw = dict(t="t1", p=0)
+        st = [{"op": dict(mkop(ops, ks[0], rng, **kw), mustSucceed=True)}]
+        held = []
+        for k in ks:
+            v = mkop(ops, k, rng, **kw)
+            v["fault"] = {"hold": True, "leg": 0}
+            v["cancelAfterMs"] = 10
+            held.append(v)
+        st.append({"par": [[v] for v in held]})
+        st.append({"closeIdle": True})
+        st += [{"release": v["o"]} for v in held]
+        st.append({"censusMs": 1200})
+        st.append({"op": dict(mkop(ops, ks[0], rng, **kw), mustSucceed=True)})
+        sc.update({"id": "c09-poolclose-%d" % si, "kind": "c09", "steps": st})
+        out.append(sc)
+        # (b) the broker re-registers at another address while calls are in flight on connections to the old one;
+        # the refresh closes the old connection group; the calls complete successfully afterwards
+        ops = Ops()
+        sc = base(400)
+        st = [{"op": dict(mkop(ops, ks[0], rng, **kw), mustSucceed=True)}]
+        held = []
+        for k in ks:
+            v = mkop(ops, k, rng, **kw)
+            v["fault"] = {"hold": True, "leg": 0}
+            v["mustSucceed"] = True
+            held.append(v)
+        st.append({"bg": [[v] for v in held]})
+        st += [{"waitArrived": v["o"]} for v in held]
+        st.append({"move": {"kind": "readdress", "b": 2, "port": 9093}})
+        st.append({"waitRefresh": True})
+        st += [{"release": v["o"]} for v in held]
+        st.append({"join": True})
+        st.append({"censusMs": 1200})
+        st.append({"op": dict(mkop(ops, ks[0], rng, **kw), mustSucceed=True)})
+        sc.update({"id": "c09-groupclose-%d" % si, "kind": "c09", "steps": st})
+        out.append(sc)
+
     # the context ends while the connection is being set up, and while the pool waits for its first metadata
     for (api, broker, tag) in (("ApiVersions", 2, "connect"), ("Metadata", 0, "firstload")):
         for how in ("cancel", "deadline"):
@@ -876,7 +924,7 @@ def run_part(ctx, prop):
         if r["violated"] or r["error"] or r["timeout"]:
             raise Inconclusive("model checking of Transport.tla (%s) did not pass: %s" % (name, r["out"][-2000:]))
         cov.update({"states": r["distinct"], "transitions": r["generated"], "mc_depth": r["depth"], "mc_config": name})
-        gname = {"C06": "releaseOnCancel", "C17": "releaseOnFail", "C09": "releaseOnCancel"}[prop]
+        gname = {"C06": "releaseOnCancel", "C17": "releaseOnFail", "C09": "leakOnClosedGroup"}[prop]
         write_mc_cfg(d, "MCpartguard_%s.cfg" % prop, *MC_QUICK[GUARDS[gname][0]], bug=gname)
         r2 = ctx.tlc(ENGINE, "MCTransport", "MCpartguard_%s.cfg" % prop, workers=6, timeout=600, tag="mcpartguard-" + prop)
         if r2["violated"] not in GUARDS[gname][1]:
